@@ -18,7 +18,7 @@
 // goroutine never blocks for real. Each rewritten package gets a file
 // zz_verif_auto.go with the two helpers. The copy is built with -tags verif.
 //
-// usage: autoyield <dir of the scratch copy>
+// usage: autoyield <dir of the scratch copy> [-nolock]
 package main
 
 import (
@@ -41,17 +41,23 @@ var atomicMethods = map[string]string{
 	"Get": "call", "Put": "call", "Do": "call", "Wait": "call", "Signal": "call", "Broadcast": "call",
 }
 
+var noLock bool
+
 type rewriter struct {
 	pkgIdents  map[string]string // local name -> import path
 	insertions int
+	loops      bool // also mark the top of every loop body (not in plenccore: its loops run per byte)
 }
 
 func main() {
-	if len(os.Args) != 2 {
-		fmt.Fprintln(os.Stderr, "usage: autoyield <dir>")
+	if len(os.Args) < 2 || len(os.Args) > 3 || (len(os.Args) == 3 && os.Args[2] != "-nolock") {
+		fmt.Fprintln(os.Stderr, "usage: autoyield <dir> [-nolock]")
 		os.Exit(2)
 	}
 	root := os.Args[1]
+	// -nolock: plain yield points before Lock / RLock too, no TryLock-based waiting (for code
+	// whose Lock methods belong to types without TryLock; the build falls back to this)
+	noLock = len(os.Args) == 3
 	total := 0
 	pkgs := map[string]string{} // dir -> package name
 	err := filepath.Walk(root, func(path string, info os.FileInfo, err error) error {
@@ -142,7 +148,7 @@ func rewriteFile(path string) (pkg string, n int, err error) {
 			}
 		}
 	}
-	r := &rewriter{pkgIdents: map[string]string{}}
+	r := &rewriter{pkgIdents: map[string]string{}, loops: f.Name.Name != "plenccore"}
 	for _, im := range f.Imports {
 		p, _ := strconv.Unquote(im.Path.Value)
 		name := p[strings.LastIndex(p, "/")+1:]
@@ -223,6 +229,12 @@ func (r *rewriter) stmts(list []ast.Stmt) []ast.Stmt {
 			// x.Lock() / x.RLock(): wait for the lock by yielding
 			if c, ok := st.X.(*ast.CallExpr); ok && len(c.Args) == 0 {
 				if sel, ok := c.Fun.(*ast.SelectorExpr); ok && (sel.Sel.Name == "Lock" || sel.Sel.Name == "RLock") {
+					if noLock {
+						// no yield point at all: a hand-placed wait-for-the-lock may precede the
+						// statement, and a switch between the two would let somebody else take the lock
+						out = append(out, s)
+						continue
+					}
 					try, unl := "TryLock", "Unlock"
 					if sel.Sel.Name == "RLock" {
 						try, unl = "TryRLock", "RUnlock"
@@ -266,6 +278,7 @@ func (r *rewriter) stmts(list []ast.Stmt) []ast.Stmt {
 			kind = r.syncKind(ns...)
 		case *ast.ForStmt:
 			r.block(st.Body)
+			r.loopMark(st.Body)
 			var ns []ast.Node
 			if st.Init != nil {
 				ns = append(ns, st.Init)
@@ -278,11 +291,18 @@ func (r *rewriter) stmts(list []ast.Stmt) []ast.Stmt {
 			}
 			kind = r.syncKind(ns...)
 			if kind != "" {
-				st.Body.List = append([]ast.Stmt{yieldStmt(kind)}, st.Body.List...)
+				// a while-style loop on a synchronisation operation is (or may be) a wait
+				// loop: its yield point tells the scheduler so, see engine (auto.spin)
+				in := kind
+				if st.Init == nil && st.Post == nil {
+					in = "spin"
+				}
+				st.Body.List = append([]ast.Stmt{yieldStmt(in)}, st.Body.List...)
 				r.insertions++
 			}
 		case *ast.RangeStmt:
 			r.block(st.Body)
+			r.loopMark(st.Body)
 			kind = r.syncKind(st.X)
 		case *ast.SwitchStmt:
 			r.caseBodies(st.Body)
@@ -318,6 +338,17 @@ func (r *rewriter) stmts(list []ast.Stmt) []ast.Stmt {
 		out = append(out, s)
 	}
 	return out
+}
+
+// loopMark puts verifAutoYield("auto.loop") at the top of a loop body: the
+// simulator counts iterations there (it never switches tasks there), so that
+// a loop that never ends - with or without a hand-placed hook - ends the run.
+func (r *rewriter) loopMark(b *ast.BlockStmt) {
+	if !r.loops || b == nil {
+		return
+	}
+	b.List = append([]ast.Stmt{yieldStmt("loop")}, b.List...)
+	r.insertions++
 }
 
 func (r *rewriter) block(b *ast.BlockStmt) {
